@@ -6,6 +6,7 @@ package main
 import (
 	"fmt"
 	"go/ast"
+	"go/token"
 	"go/types"
 	"sort"
 	"strings"
@@ -546,6 +547,95 @@ func checkC16(r *Result) {
 		}
 		sort.Strings(forms)
 		r.check(fmt.Sprint(forms) == "[-new old old-new]", "UPDATE-RULE", "(x/bridge/keeper.Keeper).PowerDiff # per-address entries: old power, old - new where both exist, -new for a new validator", P.Pos(pd.Pos()), fmt.Sprint(forms))
+	}
+	// PowerDiff: the shift is the sum of the absolute per-address changes (gains and losses of different validators do not
+	// cancel), relative to the old set's total power
+	if pd := P.Func("(x/bridge/keeper.Keeper).PowerDiff"); pd != nil {
+		tmd := NewTermer()
+		okNum, okDen, got := false, false, ""
+		for _, ret := range allReturns(pd) {
+			q, ok := ret.Results[0].(*ssa.BinOp)
+			if !ok || q.Op != token.QUO {
+				continue
+			}
+			got = clip(tmd.Of(q).String(), 200)
+			// numerator: accumulator * 10^6, the accumulator growing by absInt64(map value) on every iteration
+			if m, ok := q.X.(*ssa.BinOp); ok && m.Op == token.MUL {
+				for _, side := range []ssa.Value{m.X, m.Y} {
+					phi, ok := side.(*ssa.Phi)
+					if !ok {
+						continue
+					}
+					grows, other := 0, 0
+					for _, e := range phi.Edges {
+						if c, isC := e.(*ssa.Const); isC && c.Value != nil && c.Int64() == 0 {
+							continue
+						}
+						add, isAdd := e.(*ssa.BinOp)
+						if !isAdd || add.Op != token.ADD {
+							other++
+							continue
+						}
+						var inc ssa.Value
+						switch {
+						case add.X == ssa.Value(phi):
+							inc = add.Y
+						case add.Y == ssa.Value(phi):
+							inc = add.X
+						}
+						call, isCall := inc.(*ssa.Call)
+						if inc != nil && isCall && CalleeName(call.Common()) == "x/bridge/keeper.absInt64" && len(call.Call.Args) == 1 {
+							if ex, isEx := call.Call.Args[0].(*ssa.Extract); isEx && ex.Index == 2 {
+								if _, isNext := ex.Tuple.(*ssa.Next); isNext {
+									grows++
+									continue
+								}
+							}
+						}
+						other++
+					}
+					okNum = grows == 1 && other == 0
+				}
+			}
+			// denominator: the total of the old set's powers (first parameter set)
+			if phi, ok := q.Y.(*ssa.Phi); ok {
+				t := tmd.Of(phi)
+				okDen = t.Contains("GetPower") && !t.Contains("param:3:")
+			}
+		}
+		r.check(okNum, "UPDATE-RULE", "(x/bridge/keeper.Keeper).PowerDiff # the shift adds up the absolute value of every address's change", P.Pos(pd.Pos()), got)
+		r.check(okDen, "UPDATE-RULE", "(x/bridge/keeper.Keeper).PowerDiff # the shift is relative to the old set's total power", P.Pos(pd.Pos()), got)
+		if ab := P.Func("x/bridge/keeper.absInt64"); ab == nil {
+			r.broken("anchor absInt64 does not resolve")
+		} else {
+			pa := AnalyzePaths(ab, []Atom{{Name: "neg", Stable: true, Cond: func(rel *Term) (bool, bool) {
+				if rel.Op == "<" && len(rel.Args) == 2 && rel.Args[0].V == ssa.Value(ab.Params[0]) && rel.Args[1].Op == "const:0" {
+					return true, true
+				}
+				if rel.Op == "<=" && len(rel.Args) == 2 && rel.Args[0].Op == "const:0" && rel.Args[1].V == ssa.Value(ab.Params[0]) {
+					return true, false
+				}
+				return false, false
+			}}})
+			okAbs := true
+			for _, ret := range allReturns(ab) {
+				t := tmd.Of(ret.Results[0])
+				var need func(v map[string]bool) bool
+				switch {
+				case t.V == ssa.Value(ab.Params[0]):
+					need = func(v map[string]bool) bool { return !v["neg"] }
+				case (t.Op == "neg" && len(t.Args) == 1 && t.Args[0].V == ssa.Value(ab.Params[0])) || (t.Op == "-" && len(t.Args) == 2 && t.Args[0].Op == "const:0" && t.Args[1].V == ssa.Value(ab.Params[0])):
+					need = func(v map[string]bool) bool { return v["neg"] }
+				default:
+					okAbs = false
+					continue
+				}
+				if len(pa.Require(ret, need)) > 0 {
+					okAbs = false
+				}
+			}
+			r.check(okAbs, "UPDATE-RULE", "x/bridge/keeper.absInt64 # x when x >= 0, -x otherwise", P.Pos(ab.Pos()), "")
+		}
 	}
 	// the records of one checkpoint are stored together: no success path writes some of them and returns
 	for _, spec := range []struct {
